@@ -57,7 +57,7 @@ func (m *c09) nextBytes(n int) []byte {
 }
 
 func (m *c09) Key() string {
-	return fmt.Sprintf("%d/%d/%d/%v", m.rb.size, m.rb.r, m.rb.w, m.rb.isEmpty)
+	return fmt.Sprintf("%d/%d/%d/%v", m.rb.size, m.rb.r, m.rb.w, m.rb.isEmpty) + seqmc.Scalars(m.rb)
 }
 
 func (m *c09) Expand() bool { return m.capMax == 0 || m.rb.Cap() <= m.capMax }
